@@ -240,6 +240,9 @@ def run(ctx):
         if ty_ == EXEC:
             n_out = variant_edges(scf, Ts_, lambda t: any(M.noref(M.strip(a_)) == ("field", base_, "stdout") for a_ in M.alts(M.noref(M.strip(t)))), REDIR["None"], list(REDIR.values()), "popen::Redirection")
             n_err = variant_edges(scf, Ts_, lambda t: any(M.noref(M.strip(a_)) == ("field", base_, "stderr") for a_ in M.alts(M.noref(M.strip(t)))), REDIR["None"], list(REDIR.values()), "popen::Redirection")
+            allset = [(bb, M.callee_str(t["f"]).split("::")[-1]) for bb, t in scf.calls() if M.callee_str(t["f"]) in (ty_ + "::stdin", ty_ + "::stdout", ty_ + "::stderr")]
+            ctx.ob("R16.2", "Exec::setup_communicate.forces-only-stdout", [n for _, n in allset] == ["stdout"] and all(M.contains(Ts_.operand(t["args"][1]), lambda u: u[0] == "agg" and u[1][:3] == ("adt", "popen::Redirection", "Pipe")) for _, t in forced),
+                   scf.loc(allset[0][0] if allset else 0), "the only stream setup_communicate configures on its own is stdout := Pipe (setter calls: %s)" % [n for _, n in allset])
             for bb, t in forced:
                 ctx.ob("R16.2", "Exec::setup_communicate.forces-stdout-only-if-both-unset", bool(n_out) and bool(n_err) and dominated_by_edges(scf, bb, n_out) and dominated_by_edges(scf, bb, n_err), scf.loc(bb),
                        "self.stdout(Pipe) inside setup_communicate must be dominated by config.stdout == None and config.stderr == None")
